@@ -174,6 +174,11 @@ fn classify_block(c: &BlockCase) -> (bool, bool) {
 }
 
 /// Run one block on both engines and compare within `scope`.
+thread_local! {
+    static CALLS: std::cell::Cell<u64> = std::cell::Cell::new(0);
+    static HOST_PROBLEM: std::cell::RefCell<Option<String>> = std::cell::RefCell::new(None);
+}
+
 pub fn run_block(p: &mut JPair, c: &BlockCase, scope: Scope) -> Result<RunInfo, Fail> {
     p.place(c.pc, &c.code);
     for &(a, v) in &c.cells {
@@ -216,7 +221,17 @@ pub fn run_block(p: &mut JPair, c: &BlockCase, scope: Scope) -> Result<RunInfo, 
                     off
                 }
             };
-            b.call(off)
+            // every 8th call goes through the sentinel shim (host callee-saved registers, rsp)
+            CALLS.with(|c| c.set(c.get().wrapping_add(1)));
+            if CALLS.with(|c| c.get()) % 8 == 0 {
+                let (st, problem) = b.call_checked(off);
+                if let Some(p) = problem {
+                    HOST_PROBLEM.with(|h| *h.borrow_mut() = Some(p));
+                }
+                st
+            } else {
+                b.call(off)
+            }
         })
     };
     p.b.trace_enable(false);
@@ -239,6 +254,11 @@ pub fn run_block(p: &mut JPair, c: &BlockCase, scope: Scope) -> Result<RunInfo, 
         }
     };
     let mut result: Result<(), Fail> = Ok(());
+    if let Some(problem) = HOST_PROBLEM.with(|h| h.borrow_mut().take()) {
+        if scope == Scope::Effect {
+            result = Err(Fail::new("host-registers", format!("block {} at {:#06x}: {}", hex(&c.code), c.pc, problem)));
+        }
+    }
     match (&ra, &rb) {
         (Err(ma), _) => {
             // the reference refused: outside the domain (e.g. ran off into unmapped memory) unless the JIT did something
